@@ -600,6 +600,28 @@ fn builder_misc(t: &mut Tally) {
     if let Err(p) = r {
         report(t, "builder/validation/misc", &p, (900_001, 0), || json!({"engine": "E2-c12-misc"}));
     }
+    // ADTS through the public API: every declared frame length 0..=40 x protection flag x buffer
+    // length 0..=24 (+ exact), written and then finished
+    for fl in 0..=40usize {
+        for protected in [false, true] {
+            for buflen in (0..=24usize).chain([fl, fl + 1]) {
+                t.evaluations += 1;
+                let mut f = AdtsHdr { protection_absent: !protected, frame_length: fl as u16, ..Default::default() }.bytes();
+                f.resize(buflen.max(f.len().min(buflen)), 0x3c);
+                f.truncate(buflen);
+                let r = guarded(|| {
+                    let mut m = MuxerBuilder::new(Vec::<u8>::new()).video(VideoCodec::H264, 64, 64, 30.0).audio(AudioCodec::Aac(muxide::api::AacProfile::Lc), 48000, 2).build().unwrap();
+                    let (k, _) = frames::video_frame(VCodec::H264, true, true, 1, 4);
+                    m.write_video(0.0, &k, true).unwrap();
+                    let _ = m.write_audio(0.0, &f).map_err(|e| e.to_string());
+                    let _ = m.finish_in_place_with_stats().map_err(|e| e.to_string());
+                });
+                if let Err(p) = r {
+                    report(t, "Muxer::write_audio/ADTS", &p, (900_003, (fl * 100 + buflen) as u64 * 2 + protected as u64), || json!({"engine": "E2-c12-adts", "frame": hex(&f)}));
+                }
+            }
+        }
+    }
     // ADTS error values: every error kind x frame length 0..=24, all accessors and both Display forms
     for len in 0..=24usize {
         for variant in 0..8 {
